@@ -32,7 +32,8 @@ SHRINK = {"ops": "list"}
 
 SPOTS = ["<table>x", "<table> y<tr>", "<table><b>bold", "<pre>\n", "<textarea>\n", "<listing>\n", "<pre>", "<textarea>a", "<title>t", "<script>s", "<style>s", "<plaintext>p", "<select><option>",
          "<p><b><i>", "<svg><foreignObject>", "<frameset>", "<table><caption>", "<form>", "<a>", "<nobr>", "<b><b><b>", "</body>x", "</html>y", "<head><noscript>", "<xmp>", "<!--", "<!DOCTYPE html>",
-         "<table><td><table>z", "<body a=1>", "<html b=2>", "<math><mi>", "<iframe>", "<noembed>", "&amp", "<a b=\"", "<![CDATA["]
+         "<table><td><table>z", "<body a=1>", "<html b=2>", "<math><mi>", "<iframe>", "<noembed>", "&amp", "<a b=\"", "<![CDATA[",
+         "<!DOCTYPE html PUBLIC \"-//W3C//DTD HTML 3.2//EN\">", "<p>q<table>t", "<style \xe9=1>s</style>", "<script \xe9>x</script>", "<!--\xe9-->", "<p>q<table><tr><td>c"]
 CONF_BODY = ["<p>a</p>", "<table><tr><td>x</td></tr></table>", "<table> <tbody> <tr> <td>x</td> </tr> </tbody> </table>", "<pre>\n\nx</pre>", "<textarea>\nq</textarea>",
              "<form><input></form>", "<select><option>o</option></select>", "<ul><li>i</li></ul>", "<p><b>bold</b> <i>it</i></p>",
              "<table><caption>c</caption><tr><td><form><input></form></td></tr></table>", "<svg><g></g></svg>", "<div><a href=u>l</a></div>", "<table><colgroup><col></colgroup><tr><th>h</th></tr></table>",
@@ -49,11 +50,13 @@ SER_OPTS = [{}, {"omit_optional_tags": False}, {"quote_attr_values": "always", "
 CONTAINERS = [None, None, "div", "table", "textarea", "pre", "select", "title", "tr", "script"]
 
 
-def decode_doc(data):
+def decode_doc(data, legacy=False):
     dec = Dec(data)
     parts = []
     stateful = 0
     mode = dec.below(8)
+    if legacy:
+        mode = 5 + mode % 3      # the free-form documents only (no doctype / quirks doctypes, odd names, raw-text elements left open)
     if mode <= 3:
         # error-free documents over the stateful spots (a strict parser completes them, so the whole tree is observable), and
         # such a document cut open at a stateful position and continued with one offending token (a strict parser aborts
@@ -358,6 +361,7 @@ def check_case(case):
 
 # ---------------------------------------------------------------------------
 _doc = sized_binary(4, 90).map(decode_doc)
+_doc_free = sized_binary(4, 90).map(lambda b: decode_doc(b, legacy=True))
 
 
 class ReuseMachine(RuleBasedStateMachine):
@@ -378,7 +382,7 @@ class ReuseMachine(RuleBasedStateMachine):
         if res is not None:
             self.failed = res
 
-    @rule(d=_doc, p=st.sampled_from(["etree", "dom", "strict", "strict", "etree-root"]), scripting=st.booleans(), container=st.sampled_from(CONTAINERS), as_bytes=st.booleans())
+    @rule(d=_doc_free, p=st.sampled_from(["etree", "dom", "strict", "strict", "etree-root"]), scripting=st.booleans(), container=st.sampled_from(CONTAINERS), as_bytes=st.booleans())
     def parse(self, d, p, scripting, container, as_bytes):
         text, stateful = d
         if as_bytes and container is None:
@@ -391,16 +395,20 @@ class ReuseMachine(RuleBasedStateMachine):
     def parse_doc(self, d, p, scripting):
         self._do({"op": "parse", "p": p, "text": d[0], "scripting": scripting, "container": None, "bytes": False, "stateful": d[1]})
 
-    @rule(d=_doc, p=st.sampled_from(["strict", "strict", "dom", "etree-root"]))
-    def parse_doc2(self, d, p):
-        self._do({"op": "parse", "p": p, "text": d[0], "scripting": False, "container": None, "bytes": False, "stateful": d[1]})
+    @rule(d=_doc_free, p=st.sampled_from(["strict", "etree", "dom", "etree-root"]), container=st.sampled_from(["div", "table", "p", "td", "select", "textarea", "pre", "tr"]), scripting=st.booleans())
+    def parse_frag(self, d, p, container, scripting):
+        self._do({"op": "parse", "p": p, "text": d[0], "scripting": scripting, "container": container, "bytes": False, "stateful": d[1]})
 
     @rule(d=_doc, p=st.sampled_from(["etree", "dom", "strict"]), after=st.integers(0, 6), chunk=st.integers(1, 9))
     def faulty(self, d, p, after, chunk):
         self._do({"op": "faulty", "p": p, "text": d[0], "after": after, "chunk": chunk, "stateful": d[1]})
 
-    @rule(d=_doc, opts=st.integers(0, len(SER_OPTS) - 1), walker=st.sampled_from(["etree", "dom"]), enc=st.sampled_from([None, None, "utf-8", "ascii"]))
+    @rule(d=_doc_free, opts=st.integers(0, len(SER_OPTS) - 1), walker=st.sampled_from(["etree", "dom"]), enc=st.sampled_from([None, None, "utf-8", "ascii"]))
     def serialize(self, d, opts, walker, enc):
+        self._do({"op": "serialize", "text": d[0], "opts": opts, "walker": walker, "encoding": enc, "stateful": 0})
+
+    @rule(d=_doc, opts=st.integers(0, len(SER_OPTS) - 1), walker=st.sampled_from(["etree", "dom"]), enc=st.sampled_from([None, "ascii", "utf-8", "koi8-r"]))
+    def serialize2(self, d, opts, walker, enc):
         self._do({"op": "serialize", "text": d[0], "opts": opts, "walker": walker, "encoding": enc, "stateful": 0})
 
     @rule(ds=st.lists(_doc, min_size=2, max_size=3), schedule=st.lists(st.integers(0, 2), max_size=30))
@@ -469,7 +477,7 @@ def _fresh(isolated, batch, seed=0):
 
 def shards(tier):
     quick = tier == "quick"
-    return [{"kind": "machine", "n": 500 if quick else 6000, "steps": 8 if quick else 12} for _ in range(16)]
+    return [{"kind": "machine", "n": 500 if quick else 6000, "steps": 10 if quick else 14} for _ in range(16)]
 
 
 def run_shard(desc, seed, tier):
